@@ -19,7 +19,7 @@ from .common import muted, rng, stable_hash, boundary_values
 
 LEVEL = 'exploration'
 RULE = ('a case is one recording: a generated design plan (1-7 wires of width 1-64 driven by Wire.put pokes between clk() '
-        'calls, py4hw.Sequence blocks, Counter, Buf and Reg copies; in 30% one or two extra clock domains -- ungated, or gated by a poked / Sequence-driven 1-bit wire that really closes -- instantiated before or after the recorder domain, each with its own Sequence and a share of the clocked blocks; a watch list of 1-10 entries mixing Wire, InPort and OutPort '
+        'calls, py4hw.Sequence blocks, Counter, Buf and Reg copies; in 30% one or two extra clock domains -- ungated, or gated by a poked / Sequence-driven 1-bit wire that really closes -- instantiated before or after the recorder domain, each with its own Sequence and a share of the clocked blocks; in 25% a Sequence/Reg leaf next to the recorder carries its own (mostly gated) ClockDriver and is often the first clockable of that block; a watch list of 1-10 entries mixing Wire, InPort and OutPort '
         'objects with duplicates and port+wire aliases and, in 30%, FieldInspector / ValueFormatter rows at any position; in 25% the recorder is attached after the simulator exists (warm-up cycles and/or a Scope) and the simulator refreshed with getSimulator(); a random order of the leaves around probe-before < Waveform < probe-after) '
         '(wires may share a short name across two scopes) plus a step list (clk(n) calls with n in 0..40, pokes, clear(), checkpoints) totalling 0-200 cycles; value histories are '
         'built from small per-wire pools with forced run lengths 1-9 so that values repeat and return. Every checkpoint compares '
@@ -179,6 +179,23 @@ def gen_plan(rnd):
         for sp in wires:
             if sp['kind'] in ('seq', 'reg', 'counter') and 'dom' not in sp and not sp.get('nodom') and rnd.random() < 0.4:
                 sp['dom'] = rnd.randrange(len(domains))
+    # a clock driver attached directly to a LEAF (a Sequence / Reg that sits in the same parent block as the recorder), gated by a
+    # wire that closes or ungated; in the planned order that leaf is often the first clockable of the block
+    leafclk = []
+    if rnd.random() < 0.25:
+        cands = [i for i, sp in enumerate(wires) if sp['kind'] in ('seq', 'reg') and 'dom' not in sp and not sp.get('nodom')]
+        if not cands:
+            w = _width(rnd)
+            cands = [add(dict(kind='seq', width=w, values=_runs(rnd, _pool(rnd, w), rnd.randint(2, 20)), once=False))]
+        for i in rnd.sample(cands, min(len(cands), rnd.choice([1, 1, 2]))):
+            gate = None
+            if rnd.random() < 0.8:
+                if rnd.random() < 0.5:
+                    gate = add(dict(kind='poke', width=1, pool=[0, 1], p=rnd.choice([0.3, 0.6])))
+                else:
+                    gate = add(dict(kind='seq', width=1, values=_runs(rnd, [0, 1], max(2, min(ncyc, 40))), once=False, nodom=True))
+            wires[i]['leafclk'] = dict(gate=gate)
+            leafclk.append(i)
     nw = len(wires)
     has_out = [i for i in range(nw) if wires[i]['kind'] != 'poke']
     buf_src = {}
@@ -223,6 +240,10 @@ def gen_plan(rnd):
         k = layout.index('wf')
         layout.insert(rnd.randint(k + 1, len(layout)), 'pa')
 
+    if leafclk and rnd.random() < 0.6:
+        first_ = 'd%d' % rnd.choice(leafclk)
+        layout.remove(first_)
+        layout.insert(0, first_)
     steps = []
     pokew = [i for i in range(nw) if wires[i]['kind'] == 'poke']
     cur = {i: None for i in pokew}
@@ -377,6 +398,11 @@ def run_plan(plan, stats=None):
             blocks[nm] = py4hw.Reg(par, nm, d=ws[s['src']], q=ws[i])
         elif k == 'counter':
             blocks[nm] = py4hw.Counter(par, nm, ws[s['reset']], ws[s['inc']], ws[i])
+        if s.get('leafclk'):
+            g = ws[s['leafclk']['gate']] if s['leafclk']['gate'] is not None else None
+            blocks[nm].clockDriver = py4hw.ClockDriver('lclk%d' % i, base=hw.clockDriver, enable=g, wire=hw.wire('lclk%dw' % i))
+            if g is not None:
+                gates.append(g)
     pb = Probe(top, 'pb', ws, 'p_')
     side.tag = 0
     fi = py4hw.FieldInspector(side, 'tag')
@@ -642,6 +668,15 @@ def _features(plan):
             f.add('gated_domain_instantiated_%s' % ('before_recorder_domain' if dsp['pos'] == 'first' else 'after_recorder_domain'))
     if sum(1 for dsp in plan.get('domains') or [] if dsp['gate'] is not None) >= 2:
         f.add('two_gated_domains')
+    lay_ = [x for x in plan['layout'] if not (x[0] == 'd' and plan['wires'][int(x[1:])].get('dom') is not None)]
+    for i, sp in enumerate(plan['wires']):
+        if sp.get('leafclk'):
+            f.add('leaf_with_own_clock_driver')
+            if sp['leafclk']['gate'] is not None:
+                f.add('leaf_with_own_gated_driver')
+                clocked = [x for x in lay_ if x in ('pb', 'wf', 'pa') or plan['wires'][int(x[1:])]['kind'] in ('seq', 'reg', 'counter')]
+                if clocked and clocked[0] == 'd%d' % i:
+                    f.add('leaf_with_own_gated_driver_is_first_clockable_of_recorder_block')
     if plan.get('attach'):
         f.add('late_attach')
         f.add('late_attach_after_scope' if plan['attach']['scope'] else 'late_attach_after_warmup')
@@ -729,7 +764,8 @@ def run_check(run, tier, seed, shard):
                 run.inconclusive.append('monitor observed no %s' % need)
     if shard is None:
         for need in ('duplicate_entry', 'port_wire_alias', 'clear', 'zero_cycles', 'late_attach', 'inspector_between',
-                 'gated_domain_instantiated_before_recorder_domain', 'gated_domain_instantiated_after_recorder_domain', 'two_gated_domains'):
+                 'gated_domain_instantiated_before_recorder_domain', 'gated_domain_instantiated_after_recorder_domain', 'two_gated_domains',
+                 'leaf_with_own_gated_driver_is_first_clockable_of_recorder_block'):
             if not feats.get(need):
                 run.inconclusive.append('no recording with %s' % need)
 
@@ -737,7 +773,8 @@ def run_check(run, tier, seed, shard):
 def post_merge(run, tier, seed):
     feats = run.extra.get('recordings_with', {})
     for need in ('duplicate_entry', 'port_wire_alias', 'clear', 'zero_cycles', 'late_attach', 'inspector_between',
-                 'gated_domain_instantiated_before_recorder_domain', 'gated_domain_instantiated_after_recorder_domain', 'two_gated_domains'):
+                 'gated_domain_instantiated_before_recorder_domain', 'gated_domain_instantiated_after_recorder_domain', 'two_gated_domains',
+                 'leaf_with_own_gated_driver_is_first_clockable_of_recorder_block'):
         if not feats.get(need):
             run.inconclusive.append('no recording with %s' % need)
     for need in ('lanes_decoded', 'checkpoints', 'cycles'):
